@@ -205,7 +205,7 @@ func loadProgram(files []harnessFile, pkgDirs []string) (*ssa.Program, []*ssa.Pa
 }
 
 // collectModels finds `//verif:model NAME` directives above function declarations in overlay files.
-func collectModels(prog *ssa.Program, pkgs []*packages.Package) map[string]*ssa.Function {
+func collectModels(prog *ssa.Program, pkgs []*packages.Package, id string) map[string]*ssa.Function {
 	models := map[string]*ssa.Function{}
 	packages.Visit(pkgs, nil, func(p *packages.Package) {
 		for _, f := range p.Syntax {
@@ -221,6 +221,20 @@ func collectModels(prog *ssa.Program, pkgs []*packages.Package) map[string]*ssa.
 				for _, c := range fd.Doc.List {
 					if strings.HasPrefix(c.Text, "//verif:model ") {
 						target := strings.TrimSpace(strings.TrimPrefix(c.Text, "//verif:model "))
+						// optional scope: `//verif:model NAME only=C26,C20` applies to those properties' checks only
+						if i := strings.Index(target, " only="); i >= 0 {
+							scope := strings.Split(strings.TrimSpace(target[i+6:]), ",")
+							target = strings.TrimSpace(target[:i])
+							inScope := false
+							for _, sc := range scope {
+								if strings.TrimSpace(sc) == id {
+									inScope = true
+								}
+							}
+							if !inScope {
+								continue
+							}
+						}
 						sp := prog.Package(p.Types)
 						if sp == nil {
 							continue
@@ -554,7 +568,7 @@ func doCheck(id, tier, only string, verbose bool, workers, seed int, noNative bo
 		return 2
 	}
 	loadWall := time.Since(t0)
-	models := collectModels(prog, pkgs)
+	models := collectModels(prog, pkgs, id)
 	outDir := filepath.Join(verifDir, "out", id)
 	os.RemoveAll(outDir)
 	os.MkdirAll(filepath.Join(outDir, "replay"), 0755)
